@@ -153,6 +153,20 @@ func c11CheckBlock(t *rapid.T, svc *Service, blk *c11Block, height uint64, rng *
 		if e := c11CheckList(blk, fmt.Sprintf("GetAll(%d namespaces)", len(req)), got, err, want); e != nil {
 			t.Fatalf("%v\nblock: %s", e, blk.Desc())
 		}
+		// --- a long request: every present namespace among all the absent ones (more namespaces than
+		// any fixed degree of parallelism inside the service would take at once)
+		long := append(append([]libshare.Namespace(nil), present...), absent...)
+		rng.Shuffle(len(long), func(i, j int) { long[i], long[j] = long[j], long[i] })
+		want = want[:0]
+		for _, ns := range long {
+			want = append(want, blk.RefNamespace(ns)...)
+		}
+		got, err = svc.GetAll(ctx, height, long)
+		if e := c11CheckList(blk, fmt.Sprintf("GetAll(%d namespaces, %d of them present)", len(long), len(present)), got, err, want); e != nil {
+			t.Fatalf("%v\nblock: %s", e, blk.Desc())
+		}
+		vk.Count("getall_long_requests", 1)
+		vk.Count("getall_long_request_namespaces", int64(len(long)))
 	}
 
 	// --- by commitment: every present commitment under its namespace
